@@ -8,7 +8,8 @@ from .model import Model, Mod, dotted_name, src, member_kind, DEAD_MODULES
 
 MUTATORS = {"append", "extend", "update", "pop", "popitem", "clear", "insert", "remove", "sort", "reverse", "add", "discard",
             "setdefault", "fill", "resize", "itemset", "put", "partition", "define", "load_definitions"}
-FRESH_CALLS = {"copy", "deepcopy", "array", "zeros", "ones", "empty", "asarray", "DataFrame", "dict", "list", "set", "tuple",
+# numpy.asarray / asanyarray are NOT fresh: they return their argument when it already is an ndarray
+FRESH_CALLS = {"copy", "deepcopy", "array", "zeros", "ones", "empty", "DataFrame", "dict", "list", "set", "tuple",
                "read_table", "read_csv", "linspace", "arange", "copy.copy", "copy.deepcopy"}
 AMBIENT = ("time.", "datetime.", "random.", "numpy.random.", "uuid.", "secrets.", "os.environ", "os.getcwd", "os.getpid",
            "os.urandom", "socket.", "getpass.", "platform.", "tempfile.")
@@ -35,7 +36,8 @@ def is_fresh_expr(n) -> bool:
         name = dotted_name(n.func) or ""
         last = name.split(".")[-1]
         if last in FRESH_CALLS or name in FRESH_CALLS:
-            return True
+            # numpy.array(x, copy=False) / x.astype(t, copy=False) hand back their argument
+            return not any(kw.arg == "copy" and isinstance(kw.value, ast.Constant) and kw.value.value is False for kw in n.keywords)
         return bool(last) and last[0].isupper()      # constructors
     return False
 
